@@ -7,7 +7,7 @@ Kap/Spec/C09Svc.lean (`svc_delivery_is_chain_semantics`), the fuel is adequate (
 `deliver_never_overflows`) and the executable pull is the declarative chain (`pull_iff_chain`).
 -/
 import Kap.Model.C09Svc
-import Kap.Proofs.C09SvcHist
+import Kap.Proofs.C09SvcTbl
 namespace Kap.Props.C09Svc
 open Kap.C09 Kap.C09.Svc
 
@@ -254,5 +254,51 @@ theorem chain_functional (order : List String) (specs : List Spec) (last : Strin
   have p1 := (pull_iff_chain order specs last T0 e0 h1 h2 X e).mpr a
   have p2 := (pull_iff_chain order specs last T0 e0 h1 h2 X e').mpr b
   rw [p1] at p2; exact Option.some.inj p2
+
+/-- **What the driver evaluates is the specification**: the incremental table of Kap/Spec/C09Svc.lean computes,
+for every history (no hypotheses), exactly the declaratively defined received and arrival sequences. -/
+theorem table_is_spec (ops : List Svc.Op) (name X : String) :
+    (Tbl.run ops).gotOf name X = SvcSpec.received ops name X ∧ (Tbl.run ops).arrOf X = SvcSpec.arrivals ops X := by
+  have := tinv_run ops.reverse
+  rw [List.reverse_reverse] at this
+  exact ⟨this.got name X, this.arr X⟩
+
+/-! Non-vacuity: a history with a chain of depth 2 (t0 → p0 → p1, `level() >= WARNING` then
+`changed() == TRUE`) satisfies both hypotheses, and the recorder at the end of the chain receives the first and
+the fourth event only — the second is unchanged on p0, the third is below WARNING on t0; the fourth carries
+the previous level of its last arrival on p1 (3), not the one on t0 (1). -/
+def exOps : List Svc.Op :=
+  [ .recorder "p1" "r",
+    .reg { topic := "t0", hid := "h0", midx := 1, targets := ["p0"] },
+    .reg { topic := "p0", hid := "h1", midx := 3, targets := ["p1"] },
+    .collect "t0" { id := "a", level := 3, time := 1, prev := 0, tags := [] },
+    .collect "t0" { id := "a", level := 3, time := 2, prev := 0, tags := [] },
+    .collect "t0" { id := "a", level := 1, time := 3, prev := 0, tags := [] },
+    .collect "t0" { id := "a", level := 2, time := 4, prev := 0, tags := [] } ]
+
+instance : Decidable (SingleEntryAlways exOps) := by unfold SingleEntryAlways; infer_instance
+instance : Decidable (ForwardAlways harnessOrder exOps) := by unfold ForwardAlways; infer_instance
+
+example : SingleEntryAlways exOps ∧ ForwardAlways harnessOrder exOps := by decide
+example : SvcSpec.received exOps "r" "p1" =
+    [ { id := "a", level := 3, time := 1, prev := 0, tags := [] },
+      { id := "a", level := 2, time := 4, prev := 3, tags := [] } ] := by decide
+example : (Tbl.run exOps).gotOf "r" "p1" = SvcSpec.received exOps "r" "p1" := by decide
+/-- the hypotheses of `pull_iff_chain` are satisfiable with a non-trivial chain, and the chain exists -/
+example : singleEntry { specs := (Svc.run exOps).specs } ["t0"] = true ∧ forwardOnly harnessOrder (Svc.run exOps).specs = true
+    ∧ (pull (Svc.run exOps).specs (fun _ _ => none) "t0" { id := "a", level := 3, time := 1, prev := 0, tags := [] } 3 "p1").isSome = true := by
+  decide
+/-- without the single-entry hypothesis the synchronous model and the chain semantics part ways: a diamond
+(t0 → p0, t0 → p1, both → p2) delivers twice at p2 in the model, once in the specification -/
+def diamond : List Svc.Op :=
+  [ .recorder "p2" "r",
+    .reg { topic := "t0", hid := "h0", midx := 0, targets := ["p0", "p1"] },
+    .reg { topic := "p0", hid := "h1", midx := 0, targets := ["p2"] },
+    .reg { topic := "p1", hid := "h2", midx := 0, targets := ["p2"] },
+    .collect "t0" { id := "a", level := 3, time := 1, prev := 0, tags := [] } ]
+instance : Decidable (SingleEntryAlways diamond) := by unfold SingleEntryAlways; infer_instance
+theorem single_entry_needed : ¬ SingleEntryAlways diamond ∧
+    ((Svc.run diamond).received "r" "p2").length = 2 ∧ (SvcSpec.received diamond "r" "p2").length = 1 := by
+  decide
 
 end Kap.Props.C09Svc
